@@ -37,6 +37,7 @@ import (
 	putsvc "github.com/nspcc-dev/neofs-node/pkg/services/object/put"
 	"github.com/nspcc-dev/neofs-node/verif/lib/enumx"
 	"github.com/nspcc-dev/neofs-node/verif/lib/ev"
+	svc "github.com/nspcc-dev/neofs-node/verif/worlds/svcworld"
 	sw "github.com/nspcc-dev/neofs-node/verif/worlds/svcworld/det"
 	"github.com/nspcc-dev/neofs-sdk-go/client"
 	apistatus "github.com/nspcc-dev/neofs-sdk-go/client/status"
@@ -89,6 +90,9 @@ type tcase struct {
 	Flip string // "sign" | "key"
 	Pos  int
 	Mask byte
+	// Content != "": a case of the content dimension (content.go), named by its object variant; the
+	// request-level fields above are then unused (the request is always acceptable).
+	Content string
 }
 
 func (c tcase) sigOK() bool { return sigValid(c.Sig) && c.Flip == "" }
@@ -518,6 +522,12 @@ func firstFailing(c tcase) string {
 
 func main() {
 	r := ev.Start("C31", ev.Exploration)
+	fatal := func(format string, a ...any) {
+		svc.Cleanup()
+		r.Fatal(format, a...)
+	}
+	uni := buildUniverse()
+	cvs := contentVariants(uni)
 	var clsMu sync.Mutex
 	classes := map[string]int{}
 	single := map[string]string{} // single failing condition -> rejection message (shows each class is refused for the intended reason)
@@ -576,6 +586,16 @@ func main() {
 	if r.Replay != "" {
 		var c tcase
 		r.LoadReplay(&c)
+		if c.Content != "" {
+			for _, v := range cvs {
+				if v.Name == c.Content {
+					rep, put := checkContent(r, uni, v, fatal)
+					fmt.Printf("replaying content variant %s\n  replicate: %s\n  put:       %s\n", v.Name, rep, put)
+				}
+			}
+			svc.Cleanup()
+			r.Finish()
+		}
 		fmt.Println("replaying", c)
 		check(c)
 		r.Finish()
@@ -608,16 +628,33 @@ func main() {
 	r.Set("single_byte_deviation_cases", len(cases)-nProduct)
 	enumx.Parallel(len(cases), func(i int) { check(cases[i]) })
 
+	// content dimension: every object type x valid / content-level-invalid instance, real verifiers
+	// over a real engine, differential against the client PUT handler
+	contentOut := map[string]map[string]string{}
+	perType := map[string]int{}
+	enumx.Parallel(len(cvs), func(i int) {
+		rep, put := checkContent(r, uni, cvs[i], fatal)
+		clsMu.Lock()
+		contentOut[cvs[i].Name] = map[string]string{"expected": cvs[i].Expect, "replicate": rep, "put": put}
+		perType[cvs[i].Type]++
+		clsMu.Unlock()
+	})
+	r.Set("content_cases", len(cvs))
+	r.Set("content_cases_per_object_type", perType)
+	r.Set("content_outcomes", contentOut)
+
 	r.Set("outcome_classes", len(classes))
 	r.Set("outcome_class_counts", classes)
 	r.Set("single_cause_rejections", single)
 	r.Set("dimensions", map[string]any{"signature": sigNames, "sender": senderNames, "sender_position": []string{"first", "last"},
 		"local_node": localNames, "container": cnrNames, "object": objNames})
-	r.Rule("full cartesian product of the six dimensions; a case is non-trivial when at most one of the five acceptance conditions fails (the accepted cases and the single-cause rejections); distinct = distinct case tuple")
-	r.Assume("local storage below the real put service is a recording fake (Put = stored)",
+	r.Rule("(A) request dimension: full cartesian product of the six dimensions + single-byte deviations over a recording store; (B) content dimension: for an always-acceptable request, every object type {REGULAR, TOMBSTONE, LOCK, LINK, EC part} x valid instances and well-formed, correctly signed instances that only the type-specific content validation can reject (tombstone/lock targets by type and state, link payload/children/order/sizes/first ID, expiration, size limit), through the real Server.Replicate + put service + format validator + tombstone/split verifiers over a real engine seeded with regular objects, a lock, a tombstone, a complete and an incomplete v2 split chain; each object is also sent through the real client PUT handler of an identical node and the storing decisions must agree. (A): a case is non-trivial when at most one of the five acceptance conditions fails (the accepted cases and the single-cause rejections); distinct = distinct case tuple")
+	r.Assume("(A) local storage below the real put service is a recording fake (Put = stored); (B) local storage is a real engine, 'stored' = the object can be read back from it",
+		"(B) variants without a verdict in the property text (tombstone/lock for an object unknown to the node, lock on a non-regular or removed object, link missing its last child) are judged only by 'status OK iff stored' and by agreement with the PUT path",
 		"N3-witness request signatures and session-token-issued objects are outside the alphabet",
 		"SignObject=false (meta signature after storing is not part of the acceptance condition)",
 		"a receiving node that was a container node only in the previous epoch is expected to refuse (the FSChain contract of ForEachContainerNodePublicKey is 'current epoch')")
 	r.Exhaustive(true)
+	svc.Cleanup()
 	r.Finish()
 }
